@@ -33,6 +33,8 @@ def scope(b):
 
 def run(ctx, rep):
     facts = ctx.facts()
+    import fixtures
+    fixtures.run_controls(rep, ['E2'], lambda: ctx.reload())
     rep.rule('E1-ratio', e1_ratio.__doc__.strip().split('\n')[0])
     rep.rule('E2', e2_float.__doc__.strip().split('\n')[0])
     rep.rule('OPV', opvariants.__doc__.strip().split('\n')[0])
